@@ -82,6 +82,13 @@ def norm(t):
     if h == 'op' and len(t) == 4:
         op = OPNAME.get(t[1], t[1])
         a, b = norm(t[2]), norm(t[3])
+        if op == 'Shr.u':
+            if b[0] == 'int' and 0 <= b[1] < 64:
+                op, b = 'Div', ('int', 1 << b[1], 'usize')
+            else:
+                op = 'Shr'
+        if op == 'Div' and b[0] == 'int' and len(b) > 2:
+            b = ('int', b[1], 'usize') if b[2] in UNSIGNED else b
         fl = op.endswith('.f')
         base = op[:-2] if fl else op
         if base in ('Gt', 'Ge'):
